@@ -255,6 +255,9 @@ func main() {
 	} else {
 		t0 := time.Now()
 		args := []string{"-d", per.String()}
+		if o.Tier == "thorough" || o.Replay != "" {
+			args = append(args, "-scale", "4")
+		}
 		if pkgs != "" {
 			args = append(args, "-pkgs", pkgs)
 		}
@@ -263,13 +266,34 @@ func main() {
 		if changed := changedPkgs(root, repo, t.PkgHash); len(changed) > 0 && o.Replay == "" && err == nil {
 			extra["focused_stress_pkgs"] = changed
 			flog, ferr := run(outAbs, 20*time.Minute, []string{"GORACE=halt_on_error=0"}, exe,
-				"-d", "3s", "-rtcp", "6", "-writers", "4", "-readers", "4", "-pkgs", strings.Join(changed, ","))
+				"-d", "3s", "-rtcp", "6", "-writers", "4", "-readers", "4", "-scale", "4", "-pkgs", strings.Join(changed, ","))
 			slog += flog
 			err = ferr
 		}
 		extra["race_stress_s"] = time.Since(t0).Seconds()
 		extra["race_stress_per_interceptor"] = per.String()
 		cur, races, stalls, begun := "", 0, 0, 0
+		lostUpdates, uars, scen := 0, 0, 0
+		// findings of the conservation / use-after-release scenarios (cmd/c10race/conserve.go): one JSON object per line
+		scenarioFinding := func(line, tag, kind string, seen *int) {
+			*seen++
+			if *seen > 3 {
+				return
+			}
+			var v map[string]interface{}
+			_ = json.Unmarshal([]byte(strings.TrimPrefix(line, tag+" ")), &v)
+			detail := strings.TrimPrefix(line, tag+" ")
+			if kind == "lost-update" && v != nil {
+				detail = fmt.Sprintf("%v: %v = %v after the run, want %v (updates lost; no unsynchronised access is needed for this)\n%v",
+					v["scenario"], v["counter"], v["got"], v["want"], v["detail"])
+			}
+			if kind == "use-after-release" && v != nil {
+				detail = fmt.Sprintf("%v: %v\n%s", v["scenario"], v["what"], detail)
+			}
+			fails = append(fails, cq.ImplFailure{Kind: kind, Detail: detail,
+				Case: map[string]interface{}{"interceptor": cur, "pkgs": pkgOf(cur), "finding": v,
+					"how": "go build -race ./cmd/c10race; c10race -mode scenarios -scale 4 -pkgs <pkg>"}})
+		}
 		var block []string
 		inRace := false
 		flush := func() {
@@ -283,7 +307,15 @@ func main() {
 			switch {
 			case strings.HasPrefix(line, "C10RACE-BEGIN "):
 				cur = strings.TrimPrefix(line, "C10RACE-BEGIN ")
-				begun++
+				if strings.Contains(cur, "/") {
+					scen++
+				} else {
+					begun++
+				}
+			case strings.HasPrefix(line, "C10RACE-LOSTUPDATE "):
+				scenarioFinding(line, "C10RACE-LOSTUPDATE", "lost-update", &lostUpdates)
+			case strings.HasPrefix(line, "C10RACE-UAR "):
+				scenarioFinding(line, "C10RACE-UAR", "use-after-release", &uars)
 			case strings.HasPrefix(line, "WARNING: DATA RACE"):
 				races++
 				inRace = true
@@ -309,6 +341,9 @@ func main() {
 		extra["race_reports"] = races
 		extra["stalls"] = stalls
 		extra["interceptors_stressed"] = begun
+		extra["conservation_and_release_scenarios_run"] = scen
+		extra["lost_update_findings"] = lostUpdates
+		extra["use_after_release_findings"] = uars
 		if err != nil && races == 0 && stalls == 0 {
 			tail := slog
 			if len(tail) > 4000 {
@@ -361,6 +396,9 @@ func changedPkgs(root, repo string, cur map[string]string) []string {
 }
 
 func pkgOf(name string) string {
+	if i := strings.Index(name, "/"); i >= 0 {
+		name = name[i+1:] // scenario names: conserve/<interceptor>, uar/<interceptor>
+	}
 	p := strings.SplitN(name, ".", 2)[0]
 	if p == "cc+gcc" {
 		return "gcc"
